@@ -98,7 +98,7 @@ def one_case(ctx, kind, inp, inp0, user_seed, configs):
                 k = rng.choice(frame)
                 seedtree[k] = seedtree[k] + b"// older framework version\n"
             gen = sorted(k for k in seedtree if not k.startswith("allplatforms/") and b"USER_" in seedtree[k])
-            if gen and rng.random() < 0.3:
+            if gen and (user_seed % 3 == 0 or rng.random() < 0.15):
                 k = rng.choice(gen)
                 seedtree[k] = seedtree[k].replace(b"\n", b"\n// gr\xfc\xdfe\n", 1)
         for i, c in enumerate(configs):
@@ -160,6 +160,8 @@ def run(ctx):
                 inp0 = presv.mutate_input(ctx.rng, kind, inp)
                 inp0["name"] = inp["name"]
             user_seed = ctx.rng.randint(0, 1 << 30)
+            if i == 1 and kind in ("py", "cpp", "cs"):
+                user_seed -= user_seed % 3      # the first evolved case of each state-machine back end holds an undecodable generated file
             configs = [CONFIGS[0]] + ctx.rng.sample(CONFIGS[1:], ncfg - 1)
             res = one_case(ctx, kind, inp, inp0, user_seed, configs)
             ctx.case((kind, json.dumps(inp, sort_keys=True), json.dumps(inp0, sort_keys=True), user_seed), nontrivial=(res != "trivial"))
